@@ -52,6 +52,9 @@ CLAIMS = {
     "C15": ("a shadow history kept by the monitor (deep copies of every solution vector, every Results_Available() result in node and element form, mesh coordinates / connectivities / tags, the Get_results dict, plus a deep copy of the whole live object taken when the iteration was saved) is compared, over random interleavings of load step + Solve / Save_Iter / folder changes (two scratch folders and memory) / Set_Iter / Get_results / Result(iter=) / mesh replacement / writes into getter arrays / Save + Load_Simu (also re-saved elsewhere and moved to another folder) / Mesh.Save + Load_Mesh, with what the live or loaded object gives back: restored fields, mesh, results, purity of reads, immutability of stored iterations under later solves, and - for internal variables - the recorded next load step replayed from the restored object against the same step replayed from the deep copy",
             "histories <= 24 operations on meshes <= ~60 elements; the time scheme is fixed within a history; client writes into arrays returned by Get_results are not exercised; InElastic Save/Load is a recorded known finding (closures cannot be pickled)",
             "trace checker against a shadow history (deep-copied observations + reference continuation on a deep copy) over recorded save / restore histories"),
+    "C16": ("every name of Results_Available() of every simulation kind (Elastic static / dynamic, Thermal, Beam EB / Timoshenko 1-3D, WeakForms dof_n 1-3, PhaseField, HyperElastic static / dynamic, InElastic with a committed plastic state) is requested in node and element form on states the harness wrote itself (mutually different random u, v, a; affine displacements) and held against a relation table: components and norms against the harness' own arrays; element form = mean over the element's nodes, node form = mean over the surrounding elements (recomputed from the connectivity, mixed-group meshes and hand-built grids whose node / element counts divide one another included); tensor components against the tensor result, per-Gauss-point fields, the closed-form strain of the affine state and C : strain; von Mises taken by the harness at every integration point then averaged; constants through the conversions; Wdef = u'Ku/2 = sum(Wdef_e); Calc_Reaction = K u + C v + M a on arbitrary states and the reaction / applied-load balance on equilibrium states (Newmark for the dynamic balance)",
+            "meshes <= ~60 elements; 2-D equivalent stress = in-plane von Mises of the advertised 3-component tensor; error estimator (ZZ1), hyperelastic energy W and crack energy are only required to be finite, retrievable and convertible; beam section stresses are compared with the simulation's own Gauss-point field",
+            "relation-table oracle evaluated at the Result() boundary on harness-written states"),
 }
 
 
